@@ -74,6 +74,62 @@ fn micros_candidates() -> Vec<i64> {
     v
 }
 
+/// One update check through the public API with `stored` under the given storage key, an HTTP
+/// stub that answers 200 with an empty body (=> the check fails to parse the response).
+fn one_check_with_storage(key: &str, stored: i64) -> Result<(), String> {
+    use futures::lock::Mutex;
+    use futures::StreamExt;
+    use omaha_client::{
+        app_set::VecAppSet,
+        common::App,
+        configuration::{Config, Updater},
+        cup_ecdsa::StandardCupv2Handler,
+        http_request::StubHttpRequest,
+        installer::stub::StubInstaller,
+        metrics::StubMetricsReporter,
+        policy::StubPolicyEngine,
+        protocol::request::OS,
+        state_machine::StateMachineBuilder,
+        storage::{MemStorage, Storage},
+        time::{timers::StubTimer, StandardTimeSource},
+    };
+    use std::rc::Rc;
+    let key = key.to_string();
+    let r = std::panic::catch_unwind(move || {
+        futures::executor::block_on(async move {
+            let mut storage = MemStorage::new();
+            storage.set_int(&key, stored).await.unwrap();
+            storage.commit().await.unwrap();
+            let config = Config {
+                updater: Updater { name: "updater".to_string(), version: [1, 2, 3, 4].into() },
+                os: OS::default(),
+                service_url: "http://example.com/".to_string(),
+                omaha_public_keys: None,
+            };
+            let app_set = VecAppSet::new(vec![App::builder().id("app").version([1, 2, 3, 4]).build()]);
+            let events = StateMachineBuilder::new(
+                StubPolicyEngine::<omaha_client::installer::stub::StubPlan, _>::new(StandardTimeSource),
+                StubHttpRequest,
+                StubInstaller::default(),
+                StubTimer,
+                StubMetricsReporter,
+                Rc::new(Mutex::new(storage)),
+                config,
+                Rc::new(Mutex::new(app_set)),
+                None::<StandardCupv2Handler>,
+            )
+            .oneshot_check()
+            .await;
+            let v: Vec<_> = events.collect().await;
+            v.len()
+        })
+    });
+    match r {
+        Ok(_) => Ok(()),
+        Err(p) => Err(p.downcast_ref::<String>().cloned().or_else(|| p.downcast_ref::<&str>().map(|s| s.to_string())).unwrap_or_else(|| "panic".into())),
+    }
+}
+
 /// returns Some(description) when the obligation is violated on this input
 fn eval(ob: &str, input: &Value) -> Result<Option<Value>, String> {
     match ob {
@@ -158,11 +214,22 @@ fn eval(ob: &str, input: &Value) -> Result<Option<Value>, String> {
             let exp = spec_to_micros(ns);
             Ok(if got == exp { None } else { Some(json!({"observed": format!("{:?}", got), "expected": format!("{:?}", exp)})) })
         }
+        "report_attempts_to_successful_check::no_panic" | "ping_omaha::no_panic" => {
+            let stored = input["stored"].as_i64().ok_or("stored")?;
+            match one_check_with_storage("consecutive_failed_update_checks", stored) {
+                Ok(()) => Ok(None),
+                Err(msg) => Ok(Some(json!({"observed": format!("panic: {}", msg), "scenario": "StateMachineBuilder + MemStorage{consecutive_failed_update_checks=stored} + StubHttpRequest, oneshot_check()"}))),
+            }
+        }
         _ => Err(format!("no evaluator for obligation {}", ob)),
     }
 }
 
 fn candidates(ob: &str) -> Vec<Value> {
+    if ob.ends_with("::no_panic") && (ob.starts_with("report_attempts") || ob.starts_with("ping_omaha")) {
+        return [0i64, 1, u32::MAX as i64 - 1, u32::MAX as i64, u32::MAX as i64 + 1, i64::MAX, -1, i64::MIN]
+            .iter().map(|v| json!({"stored": v})).collect();
+    }
     if ob.contains("from_micros") || ob.contains("micros_roundtrip") {
         micros_candidates().into_iter().map(|m| json!({"micros": m})).collect()
     } else {
